@@ -12,7 +12,11 @@ key
                                             steps, negative bounds, bounds beyond the extent) |
                                             {"l": [i, ...]} (python list) | {"a": [i, ...]} (1-D ndarray);
                                             optional ``"np": true`` = ints are passed as numpy.int64
-    ``{"f": "subs", "rows": [[...], ...]}`` p x M array of subscripts (distinct rows)
+    ``{"f": "subs", "rows": [[...], ...]}`` p x M array of subscripts (distinct rows); ``rows == []`` with
+                                            ``"ncols": M`` = the 0 x M array (addresses nothing)
+    (round 3) empty requests: a slice element that selects no index (``:0``, ``a:a``, ``b:a``, ``n:``, ...), an empty
+    index list ``{"l": []}`` / ``{"a": []}``, the 0 x M subscript array and empty linear lists / arrays / slices
+    address no position: a write through them is a no-op (NumPy's meaning; no growth is ever combined with them)
     ``{"f": "lin", "i": int}`` · ``{"f": "linlist", "i": [...]}`` · ``{"f": "linarr", "i": [...]}`` ·
     ``{"f": "linslice", "s": [start, stop(, step)]}``   linear index forms (first index fastest)
 rhs
@@ -101,7 +105,8 @@ def elem_extent(e, cur: Optional[int]) -> int:
             return cur
         idx = range(sl.stop)[sl]
         return max(cur, idx[-1] + 1) if len(idx) else cur
-    return max(elem_list(e)) + 1
+    lst = elem_list(e)
+    return (max(lst) + 1) if lst else (cur or 0)  # an empty index list addresses nothing
 
 
 def grown_shape(shape: Sequence[int], key: Dict[str, Any]) -> List[int]:
@@ -117,6 +122,8 @@ def grown_shape(shape: Sequence[int], key: Dict[str, Any]) -> List[int]:
         return out
     if f == "subs":
         rows = key["rows"]
+        if not rows:
+            return shape  # a subscript array without rows addresses nothing
         M = len(rows[0])
         out = []
         for m in range(M):
@@ -256,7 +263,7 @@ def py_key(key):
         return tuple(out)
     if f == "subs":
         rows = key["rows"]
-        return np.array(rows, dtype=int).reshape(len(rows), len(rows[0]))
+        return np.array(rows, dtype=int).reshape(len(rows), len(rows[0]) if rows else int(key["ncols"]))
     if f == "lin":
         return int(key["i"])
     if f == "linlist":
@@ -310,6 +317,8 @@ def as_subs(shape: Sequence[int], key, rhs=None):
     """The same addressed positions (and values) as a p x M subscript-array operation."""
     pos = positions(shape, key, write=rhs is not None)
     k2 = dict(f="subs", rows=pos)
+    if not pos:
+        k2["ncols"] = len(key["k"]) if key["f"] == "tuple" else (key.get("ncols") or len(shape))
     if rhs is None:
         return k2, None
     if rhs["r"] == "scalar":
@@ -366,7 +375,12 @@ def key_label(key) -> str:
 
 
 def long_lists(key) -> int:
-    return sum(1 for e in key["k"] if elem_kind(e) in ("list", "arr") and len(elem_list(e)) >= 2)
+    """index lists that do not broadcast against every other list (length other than one; an empty list included)"""
+    return sum(1 for e in key["k"] if elem_kind(e) in ("list", "arr") and len(elem_list(e)) != 1)
+
+
+def has_empty_list(key) -> bool:
+    return key["f"] == "tuple" and any(elem_kind(e) in ("list", "arr") and not elem_list(e) for e in key["k"])
 
 
 def dense_tags(op: str, shape: Sequence[int], key, rhs=None) -> List[str]:
@@ -376,7 +390,13 @@ def dense_tags(op: str, shape: Sequence[int], key, rhs=None) -> List[str]:
         if (op == "write" and rhs is not None and rhs["r"] == "vec" and rhs.get("as") == "list"
                 and len(positions(shape, key)) == 1):
             tags.append("single-row-list")
+        if op == "write" and key["f"] == "subs" and not key["rows"]:
+            tags.append("empty-subs")
+        if op == "write" and key["f"] == "linlist" and not key["i"]:
+            tags.append("empty-linlist")
         return tags
+    if op == "write" and has_empty_list(key):
+        tags.append("empty-list")
     if long_lists(key) >= 2 or (n_lists(key) >= 2 and op == "write" and rhs is not None and rhs["r"] == "array"):
         tags.append("lists-paired")
     elif advanced_split(key) and (op == "read" or (rhs is not None and rhs["r"] == "array")):
@@ -427,6 +447,10 @@ def sparse_tags(op: str, shape: Sequence[int], key, rhs, stored_subs: np.ndarray
         if f == "tuple" and any(elem_kind(e) == "arr" and len(e["a"]) >= 2 for e in key["k"]):
             tags.append("ndarray-list-read")
         return tags
+    if f == "subs" and not key["rows"]:
+        return ["empty-subs"]
+    if f == "tuple" and has_empty_list(key):
+        tags.append("empty-list")
     if f == "subs":
         rows = sorted(tuple(r) for r in key["rows"])  # pyttb sorts the batch (np.unique)
         byrow = dict(zip([tuple(r) for r in key["rows"]], rhs_values(rhs, len(key["rows"]))))
